@@ -19,7 +19,7 @@ def py_env():
     e = dict(os.environ)
     e.update(PYTHONPATH=REPO + ":" + VERIF, PYTHONHASHSEED="0", JAX_PLATFORMS="cpu",
              XLA_FLAGS="--xla_cpu_multi_thread_eigen=false",
-             OMP_NUM_THREADS="2", JUMANJI_VERIF="1", PYTHONWARNINGS="ignore")
+             OMP_NUM_THREADS="2", JUMANJI_VERIF="1", PYTHONWARNINGS="ignore", HF_HUB_OFFLINE="1")
     return e
 
 
